@@ -107,6 +107,34 @@ type ErrSpec struct {
 	Join        bool   `json:"join,omitempty"`   // several parts: errors.Join instead of fmt.Errorf("%w; %w")
 	DummyFuture bool   `json:"dummy_future,omitempty"`
 	Dirty       bool   `json:"dirty,omitempty"` // generator's flag: a text mentions a sentinel text without wrapping it
+	// a long context text around the error, as backends produce it (request dumps, hex encoded transactions, the
+	// last response of a retry loop): Pad bytes, placed by Pos relative to the wrapped error
+	Pos    string `json:"pos,omitempty"`     // "" = none | "end": fmt.Errorf("<ctx>: %w") (the Go convention: the error last) | "start": fmt.Errorf("%w: <ctx>") | "mid": fmt.Errorf("<ctx1>: %w: <ctx2>")
+	Pad    int    `json:"pad,omitempty"`     // length of the context text in bytes
+	PadOff int    `json:"pad_off,omitempty"` // first digit of the hex dump
+	Lead   int    `json:"lead,omitempty"`    // index into padLeads: how the context text starts
+}
+
+// how a long context starts (then a hex dump follows); ASCII only, with the characters JSON has to escape
+var padLeads = []string{"", "broadcast tx ", "signer celestia1qx3 seq=41 gas=250000 attempts=3; last response: ", "resp={\"code\":19,\"log\":\"<a&b>\\n\"}\n\tdump=", "0x"}
+
+const hexCycle = "0123456789abcdef"
+
+// padText: exactly n bytes: the lead (cut to n) followed by a hex dump
+func padText(n, off, lead int) string {
+	if n <= 0 {
+		return ""
+	}
+	l := padLeads[lead%len(padLeads)]
+	if len(l) > n {
+		l = l[:n]
+	}
+	b := make([]byte, 0, n)
+	b = append(b, l...)
+	for i := 0; len(b) < n; i++ {
+		b = append(b, hexCycle[(off+i)%16])
+	}
+	return string(b)
 }
 
 func (s *ErrSpec) build() error {
@@ -142,6 +170,18 @@ func (s *ErrSpec) build() error {
 			e = fmt.Errorf("%w; %w", e, p)
 		}
 	}
+	if s.Pos != "" {
+		ctx := padText(s.Pad, s.PadOff, s.Lead)
+		switch s.Pos {
+		case "end":
+			e = fmt.Errorf("%s: %w", ctx, e)
+		case "start":
+			e = fmt.Errorf("%w: %s", e, ctx)
+		default:
+			h := len(ctx) / 2
+			e = fmt.Errorf("%s: %w: %s", ctx[:h], e, ctx[h:])
+		}
+	}
 	if s.Prefix != "" {
 		e = fmt.Errorf("%s: %w", s.Prefix, e)
 	}
@@ -162,7 +202,104 @@ func errCoq(e error) string {
 			is = append(is, sentNames[i])
 		}
 	}
-	return fmt.Sprintf("(mk_err %s %s %s)", vgen.List(is), vgen.Bool(errors.Is(e, context.Canceled)), vgen.Str(e.Error()))
+	return fmt.Sprintf("(mk_err %s %s %s)", vgen.List(is), vgen.Bool(errors.Is(e, context.Canceled)), textCoq(e.Error()))
+}
+
+// textCoq: a Coq term of type string denoting exactly s.  Runs of >= 24 bytes of the cycle 0123456789abcdef are
+// written as (Fil first-digit length) inside a (rope [...]) — Check.ProxyCheck — so that a text of several KB costs a
+// few dozen characters of case file; everything else is a literal.  Works on the bytes of s, whatever s is (the text
+// sent and the text observed go through the same function); decoding the segments must give s back.
+func textCoq(s string) string {
+	type seg struct {
+		lit    string
+		off, n int
+	}
+	var segs []seg
+	lit, i, runs := 0, 0, 0
+	for i < len(s) {
+		d := strings.IndexByte(hexCycle, s[i])
+		if d < 0 {
+			i++
+			continue
+		}
+		j := i + 1
+		for j < len(s) && s[j] == hexCycle[(d+j-i)%16] {
+			j++
+		}
+		if j-i >= 24 {
+			if lit < i {
+				segs = append(segs, seg{lit: s[lit:i]})
+			}
+			segs = append(segs, seg{off: d, n: j - i})
+			runs++
+			lit = j
+		}
+		i = j
+	}
+	if runs == 0 {
+		return vgen.Str(s)
+	}
+	if lit < len(s) {
+		segs = append(segs, seg{lit: s[lit:]})
+	}
+	var back strings.Builder
+	parts := make([]string, len(segs))
+	for k, g := range segs {
+		if g.n == 0 {
+			back.WriteString(g.lit)
+			parts[k] = "Lit " + vgen.Str(g.lit)
+		} else {
+			for q := 0; q < g.n; q++ {
+				back.WriteByte(hexCycle[(g.off+q)%16])
+			}
+			parts[k] = fmt.Sprintf("Fil %d %d", g.off, g.n)
+		}
+	}
+	if back.String() != s {
+		panic("textCoq: encoder is not faithful on " + strconv.Quote(s))
+	}
+	return "(rope " + vgen.List(parts) + ")"
+}
+
+func optTextCoq(t *string) string {
+	if t == nil {
+		return "None"
+	}
+	return "(Some " + textCoq(*t) + ")"
+}
+
+// recorder stands between the node's helper and the DA it calls (the double itself / the jsonrpc client) and passes
+// every call and every answer through untouched; it keeps the text of the last error the helper was handed.
+type recorder struct {
+	coreda.DA
+	text *string
+}
+
+func (r *recorder) note(err error) {
+	if err != nil {
+		t := err.Error()
+		r.text = &t
+	}
+}
+func (r *recorder) SubmitWithOptions(c context.Context, b []coreda.Blob, gp float64, ns, o []byte) ([]coreda.ID, error) {
+	ids, err := r.DA.SubmitWithOptions(c, b, gp, ns, o)
+	r.note(err)
+	return ids, err
+}
+func (r *recorder) Submit(c context.Context, b []coreda.Blob, gp float64, ns []byte) ([]coreda.ID, error) {
+	ids, err := r.DA.Submit(c, b, gp, ns)
+	r.note(err)
+	return ids, err
+}
+func (r *recorder) GetIDs(c context.Context, h uint64, ns []byte) (*coreda.GetIDsResult, error) {
+	res, err := r.DA.GetIDs(c, h, ns)
+	r.note(err)
+	return res, err
+}
+func (r *recorder) Get(c context.Context, ids []coreda.ID, ns []byte) ([]coreda.Blob, error) {
+	res, err := r.DA.Get(c, ids, ns)
+	r.note(err)
+	return res, err
 }
 
 // ---- one call pair -----------------------------------------------------------------------------------------
@@ -510,6 +647,7 @@ type caseOut struct {
 	dlog, plog      [][]int
 	dOK, pOK        bool // blob contents reaching the backend were the caller's
 	dcalls, pcalls  [2]int
+	dtext, ptext    *string // text of the error the helper was handed by the DA it called (nil = none)
 }
 
 func (r *rig) run(c *Call) caseOut {
@@ -532,22 +670,24 @@ func (r *rig) run(c *Call) caseOut {
 	p := newScripted(c, sent)
 	r.sw.set(p)
 	r.client.DA.MaxBlobSize = c.Max
+	dr, pr := &recorder{DA: d}, &recorder{DA: &r.client.DA}
 	switch c.Kind {
 	case "submit":
 		ctx, cancel := mkctx()
-		out.direct = projSubmit(c, sent, types.SubmitWithHelpers(ctx, d, r.logger, sent, 0, nil))
+		out.direct = projSubmit(c, sent, types.SubmitWithHelpers(ctx, dr, r.logger, sent, 0, nil))
 		cancel()
 		ctx, cancel = mkctx()
-		out.proxied = projSubmit(c, sent, types.SubmitWithHelpers(ctx, &r.client.DA, r.logger, sent, 0, nil))
+		out.proxied = projSubmit(c, sent, types.SubmitWithHelpers(ctx, pr, r.logger, sent, 0, nil))
 		cancel()
 	case "retrieve":
 		ctx, cancel := mkctx()
-		out.direct = projRetrieve(types.RetrieveWithHelpers(ctx, d, r.logger, c.Height, []byte("test")))
+		out.direct = projRetrieve(types.RetrieveWithHelpers(ctx, dr, r.logger, c.Height, []byte("test")))
 		cancel()
 		ctx, cancel = mkctx()
-		out.proxied = projRetrieve(types.RetrieveWithHelpers(ctx, &r.client.DA, r.logger, c.Height, []byte("test")))
+		out.proxied = projRetrieve(types.RetrieveWithHelpers(ctx, pr, r.logger, c.Height, []byte("test")))
 		cancel()
 	}
+	out.dtext, out.ptext = dr.text, pr.text
 	out.dlog, out.plog = d.submitLog, p.submitLog
 	out.dOK, out.pOK = d.contentOK, p.contentOK
 	out.dcalls, out.pcalls = [2]int{d.getids, d.gets}, [2]int{p.getids, p.gets}
@@ -571,6 +711,19 @@ func oracle(c *Call, o caseOut) []viol {
 	var vs []viol
 	add := func(sig, f string, a ...interface{}) { vs = append(vs, viol{sig, fmt.Sprintf(f, a...)}) }
 	same := reflect.DeepEqual(o.direct, o.proxied)
+	// the backing DA's error text arrives whole (over the wire an error IS its text): when the scripted error reached
+	// the helper in-process and the proxied call reached the backend too, the text the helper is handed behind the
+	// proxy contains it — unless it is a cancellation, which the client replaces by context.Canceled
+	if sentErr := c.scriptedErr(o); sentErr != nil && o.dtext != nil && *o.dtext == sentErr.Error() && c.proxiedReached(o) {
+		sent := sentErr.Error()
+		if !strings.Contains(sent, context.Canceled.Error()) && (o.ptext == nil || !strings.Contains(*o.ptext, sent)) {
+			got, gl := "<no error>", 0
+			if o.ptext != nil {
+				got, gl = clip(*o.ptext), len(*o.ptext)
+			}
+			add("backend-error-text-altered-over-wire", "%s: the backend's error text (%d bytes: %s) reached the helper behind the proxy as %d bytes: %s", c.Kind, len(sent), clip(sent), gl, got)
+		}
+	}
 	switch c.Kind {
 	case "retrieve":
 		// every error, every result: the node sees the same thing
@@ -637,7 +790,67 @@ func oracle(c *Call, o caseOut) []viol {
 	return vs
 }
 
+// scriptedErr: the error the backend's script returned to the call that the helper saw fail (nil = none)
+func (c *Call) scriptedErr(o caseOut) error {
+	if c.Cancelled {
+		return nil
+	}
+	switch {
+	case c.Kind == "submit" && c.Resp == "err":
+		return c.Err.build()
+	case c.Kind == "retrieve" && c.G == "err":
+		return c.GErr.build()
+	case c.Kind == "retrieve" && c.G == "ids" && c.GetBatch != 0 && c.GetBatch <= (c.NIDs+99)/100:
+		return c.GetErr.build()
+	}
+	return nil
+}
+
+// proxiedReached: the proxied call got as far as the in-process one (same calls reached the backend)
+func (c *Call) proxiedReached(o caseOut) bool {
+	if c.Kind == "submit" {
+		return len(o.plog) > 0
+	}
+	return o.pcalls == o.dcalls
+}
+
+func clip(s string) string {
+	if len(s) <= 120 {
+		return strconv.Quote(s)
+	}
+	return strconv.Quote(s[:60]) + " ... " + strconv.Quote(s[len(s)-50:])
+}
+
 // ---- generator ---------------------------------------------------------------------------------------------
+
+// genLen: a text length from 0 to several KB: around the powers of two 2^4..2^13 (+-2), uniform, or log-uniform
+func genLen(r *rand.Rand) int {
+	switch p := r.Intn(100); {
+	case p < 40:
+		n := (1 << (4 + r.Intn(10))) + r.Intn(5) - 2
+		return n
+	case p < 70:
+		return r.Intn(8300)
+	default:
+		return r.Intn(1 << (1 + r.Intn(13)))
+	}
+}
+
+// longContext: puts the error into a context text of 0 .. ~8 KB; half of the time the length drawn is that of the
+// whole message rather than of the context
+func longContext(r *rand.Rand, e *ErrSpec) {
+	e.Pos = []string{"end", "end", "end", "mid", "start"}[r.Intn(5)]
+	e.PadOff, e.Lead = r.Intn(16), r.Intn(len(padLeads))
+	n := genLen(r)
+	if r.Intn(2) == 0 {
+		e.Pad = 0
+		n -= len(e.build().Error())
+		if n < 0 {
+			n = 0
+		}
+	}
+	e.Pad = n
+}
 
 var cleanPrefixes = []string{"failed to submit", "celestia: broadcast tx", "rpc", "da layer said no", "submit 3 blobs at gas 0.002", "height 9 is in the future"}
 var cleanSuffixes = []string{"requested 9, current 3", "code 19", "retry later"}
@@ -676,6 +889,9 @@ func genErr(r *rand.Rand, submitPath bool) *ErrSpec {
 	if r.Intn(12) == 0 && e.Opaque == "" {
 		e.Opaque = "also: disk full"
 		e.Join = r.Intn(2) == 0
+	}
+	if r.Intn(100) < 45 {
+		longContext(r, e)
 	}
 	return e
 }
@@ -869,9 +1085,9 @@ func caseCoq(c *Call, o caseOut) string {
 	if c.Kind == "submit" && c.Resp == "err" {
 		inDom = c.Err.inDomain()
 	}
-	return fmt.Sprintf("{| c_call := %s; c_direct := %s; c_proxied := %s; c_dlog := %s; c_plog := %s; c_dcalls := (%d, %d)%%N; c_pcalls := (%d, %d)%%N; c_indomain := %s |}",
+	return fmt.Sprintf("{| c_call := %s; c_direct := %s; c_proxied := %s; c_dlog := %s; c_plog := %s; c_dcalls := (%d, %d)%%N; c_pcalls := (%d, %d)%%N; c_indomain := %s; c_dtext := %s; c_ptext := %s |}",
 		callCoq(c), obsCoq(c.Kind, o.direct), obsCoq(c.Kind, o.proxied), logCoq(o.dlog), logCoq(o.plog),
-		o.dcalls[0], o.dcalls[1], o.pcalls[0], o.pcalls[1], vgen.Bool(inDom))
+		o.dcalls[0], o.dcalls[1], o.pcalls[0], o.pcalls[1], vgen.Bool(inDom), optTextCoq(o.dtext), optTextCoq(o.ptext))
 }
 
 // ---- shrinking --------------------------------------------------------------------------------------------------
@@ -931,6 +1147,41 @@ func shrink(rg *rig, c Call, sig string) Call {
 	simplify(func(c *Call) **ErrSpec { return &c.Err })
 	simplify(func(c *Call) **ErrSpec { return &c.GErr })
 	simplify(func(c *Call) **ErrSpec { return &c.GetErr })
+	// the long context: none if possible, else plain and as short as still fails (binary search on its length)
+	shrinkPad := func(get func(*Call) **ErrSpec) {
+		if *get(&c) == nil || (*get(&c)).Pos == "" {
+			return
+		}
+		try := func(mod func(e *ErrSpec)) bool {
+			x := c
+			cp := **get(&c)
+			cp.Sent = append([]int{}, cp.Sent...)
+			mod(&cp)
+			*get(&x) = &cp
+			if fails(x) {
+				c = x
+				return true
+			}
+			return false
+		}
+		if try(func(e *ErrSpec) { e.Pos, e.Pad, e.PadOff, e.Lead = "", 0, 0, 0 }) {
+			return
+		}
+		try(func(e *ErrSpec) { e.Lead = 0 })
+		try(func(e *ErrSpec) { e.PadOff = 0 })
+		lo, hi := 0, (*get(&c)).Pad
+		for lo < hi {
+			mid := (lo + hi) / 2
+			if try(func(e *ErrSpec) { e.Pad = mid }) {
+				hi = mid
+			} else {
+				lo = mid + 1
+			}
+		}
+	}
+	shrinkPad(func(c *Call) **ErrSpec { return &c.Err })
+	shrinkPad(func(c *Call) **ErrSpec { return &c.GErr })
+	shrinkPad(func(c *Call) **ErrSpec { return &c.GetErr })
 	if c.Cancelled {
 		x := c
 		x.Cancelled = false
@@ -977,6 +1228,46 @@ func realSizeJobs(def uint64) []job {
 	return js
 }
 
+// longTextJobs: the fixed part of the long-error stream.  Every sentinel behind a context of 300 and 5000 bytes in
+// the conventional position (the error last) on both paths; one submit-path and one retrieve-path sentinel in the
+// middle and at the start; whole messages of exactly 2^k-1, 2^k, 2^k+1 bytes for k = 5..13; a failing Get.
+func longTextJobs() []job {
+	var js []job
+	add := func(c Call) { cc := c; js = append(js, job{0, 0, &cc}) }
+	sub := func(e *ErrSpec) { add(Call{Kind: "submit", Sizes: []int{3, 4}, Max: 100, Resp: "err", Err: e}) }
+	ret := func(e *ErrSpec) { add(Call{Kind: "retrieve", Height: 5, G: "err", GErr: e}) }
+	for i := range sentErrs {
+		for _, n := range []int{300, 5000} {
+			sub(&ErrSpec{Sent: []int{i}, Pos: "end", Pad: n, Lead: 2})
+			ret(&ErrSpec{Sent: []int{i}, Pos: "end", Pad: n, Lead: 1})
+		}
+	}
+	for _, pos := range []string{"mid", "start"} {
+		for _, n := range []int{300, 5000} {
+			sub(&ErrSpec{Sent: []int{2}, Pos: pos, Pad: n, Lead: 3})
+			ret(&ErrSpec{Sent: []int{6}, Pos: pos, Pad: n, Lead: 3})
+		}
+	}
+	for k := 5; k <= 13; k++ {
+		for d := -1; d <= 1; d++ {
+			for path, idx := range []int{3, 6} {
+				e := &ErrSpec{Sent: []int{idx}, Pos: "end", PadOff: k}
+				if n := (1<<k + d) - len(e.build().Error()); n > 0 {
+					e.Pad = n
+				}
+				if path == 0 {
+					sub(e)
+				} else {
+					ret(e)
+				}
+			}
+		}
+	}
+	add(Call{Kind: "retrieve", Height: 5, G: "ids", NIDs: 150, GetBatch: 2, GetErr: &ErrSpec{Opaque: "shard 7 unavailable", Pos: "end", Pad: 3000, Lead: 1}})
+	add(Call{Kind: "retrieve", Height: 5, G: "ids", NIDs: 3, GetBatch: 1, GetErr: &ErrSpec{Sent: []int{0}, Pos: "mid", Pad: 700}})
+	return js
+}
+
 func caseRng(seed int64, c int) *rand.Rand { return rand.New(rand.NewSource(seed*1000003 + int64(c))) }
 
 func TestVerif(t *testing.T) {
@@ -1017,6 +1308,7 @@ func TestVerif(t *testing.T) {
 				}
 			}
 			jobs = append(jobs, realSizeJobs(rg.defaultMax)...)
+			jobs = append(jobs, longTextJobs()...)
 			jobs = append(jobs, job{0, 0, &Call{Kind: "submit", Sizes: []int{3, 4}, Max: 100, Resp: "err", Err: &ErrSpec{Ctx: "canceled"}}})
 			jobs = append(jobs, job{0, 0, &Call{Kind: "submit", Sizes: []int{3, 4}, Max: 100, Resp: "ok", Cancelled: true}})
 			jobs = append(jobs, job{0, 0, &Call{Kind: "retrieve", Height: 5, G: "ids", NIDs: 3, Cancelled: true}})
@@ -1093,7 +1385,7 @@ func TestVerif(t *testing.T) {
 		}
 	}
 	res.Distinct = len(distinct)
-	res.Rule = "one case = one call pair (direct double vs the same double behind the real jsonrpc server+client on 127.0.0.1:0) through types.SubmitWithHelpers / types.RetrieveWithHelpers; submit: 0..20 blobs with sizes fitting / crossing / individually exceeding the client limit (1..1000), plus a real-size stream (server and client with production limits, default max blob size, totals at 50/75/90/99/100% and 100%+1 byte, 4-6 medium blobs trimmed to a near-full prefix; 17 fixed + ~1.4% of generated calls), backend answers ok / real DummyDA with its own limit / scripted error / no ids / fewer ids; retrieve: nil / empty / 1..260 ids (1-3 Get batches, optional failing batch) / scripted error; scripted errors: each of the 8 core/da sentinels bare, wrapped, joined, context.Canceled, context.DeadlineExceeded, opaque, texts that merely mention a sentinel; 5% with the caller's context already cancelled; fixed part: every sentinel bare and wrapped on both paths; non-trivial = not the empty submit; distinct = distinct Coq call terms"
+	res.Rule = "one case = one call pair (direct double vs the same double behind the real jsonrpc server+client on 127.0.0.1:0) through types.SubmitWithHelpers / types.RetrieveWithHelpers; submit: 0..20 blobs with sizes fitting / crossing / individually exceeding the client limit (1..1000), plus a real-size stream (server and client with production limits, default max blob size, totals at 50/75/90/99/100% and 100%+1 byte, 4-6 medium blobs trimmed to a near-full prefix; 17 fixed + ~1.4% of generated calls), backend answers ok / real DummyDA with its own limit / scripted error / no ids / fewer ids; retrieve: nil / empty / 1..260 ids (1-3 Get batches, optional failing batch) / scripted error; scripted errors: each of the 8 core/da sentinels bare, wrapped, joined, context.Canceled, context.DeadlineExceeded, opaque, texts that merely mention a sentinel; 45% of them inside a long context text (0..~8 KB: around 2^4..2^13 +-2, uniform, log-uniform; request-dump style with quotes, <, &, backslash, newline, tab and a hex dump) with the error last (%w at the end, the Go convention), in the middle or first; the TEXT of the error the helper is handed is recorded on both sides and compared with the model's (the wire keeps the whole text) and by the oracle (the backend's text arrives whole); 5% with the caller's context already cancelled; fixed part: every sentinel bare and wrapped on both paths, every sentinel behind 300 and 5000 bytes of context, messages of exactly 2^k-1, 2^k, 2^k+1 bytes (k=5..13) on both paths; non-trivial = not the empty submit; distinct = distinct Coq call terms"
 	res.Cases = len(cases)
 	header := "From Coq Require Import String Ascii NArith List Bool.\nFrom Verif Require Import Model.Proxy Check.ProxyCheck."
 	defs := []string{tableCoq(),
@@ -1143,5 +1435,21 @@ func countErr(res *vgen.Result, pfx string, e *ErrSpec) {
 	}
 	if !e.inDomain() {
 		res.Count(pfx + ":outside-domain")
+	}
+	if e.Pos != "" {
+		res.Count(pfx + ":long-context-error-at-" + e.Pos)
+	}
+	n := len(e.build().Error())
+	switch {
+	case n < 64:
+		res.Count(pfx + "-text-bytes:0-63")
+	case n < 256:
+		res.Count(pfx + "-text-bytes:64-255")
+	case n < 1024:
+		res.Count(pfx + "-text-bytes:256-1023")
+	case n < 4096:
+		res.Count(pfx + "-text-bytes:1024-4095")
+	default:
+		res.Count(pfx + "-text-bytes:4096+")
 	}
 }
